@@ -2,13 +2,27 @@ use crate::utils::pckg;
 use crate::utils::state::{get_as_string, get_handles_sub_state};
 use duckscript::types::command::{Command, CommandInvocationContext, CommandResult};
 use duckscript::types::runtime::StateValue;
-use java_properties::write;
+use encoding_rs::UTF_8;
+use java_properties::PropertiesWriter;
 use std::collections::HashMap;
 use std::str;
 
 #[cfg(test)]
 #[path = "./mod_test.rs"]
 mod mod_test;
+
+// The text stays inside the runtime as a string, so it is written as UTF-8 (the
+// ISO-8859-1 default of the properties format cannot be stored in a string value).
+fn write_utf8(
+    buffer: &mut Vec<u8>,
+    properties: &HashMap<String, String>,
+) -> Result<(), java_properties::PropertiesError> {
+    let mut writer = PropertiesWriter::new_with_encoding(buffer, UTF_8);
+    for (key, value) in properties {
+        writer.write(key, value)?;
+    }
+    writer.finish()
+}
 
 #[derive(Clone)]
 pub(crate) struct CommandImpl {
@@ -69,7 +83,7 @@ impl Command for CommandImpl {
                         }
 
                         let mut buffer: Vec<u8> = vec![];
-                        match write(&mut buffer, &properties) {
+                        match write_utf8(&mut buffer, &properties) {
                             Ok(_) => match str::from_utf8(&buffer) {
                                 Ok(text) => CommandResult::Continue(Some(
                                     text.trim_end_matches(|c| c == '\n' || c == '\r')
